@@ -2508,6 +2508,7 @@ func ruleCppEnumUnderlyingType(c *core.Ctx) {
 	}
 	// under "not flags, base type given" some emission must carry the base clause
 	okEnum, okFlags := false, false
+	flagsViaLocal := false
 	var posEnum, posFlags = d.Pos(), d.Pos()
 	for _, r := range rows {
 		if r.Kind != "emit" {
@@ -2531,6 +2532,17 @@ func ruleCppEnumUnderlyingType(c *core.Ctx) {
 			if len(r.Args) >= 2 && (strings.Contains(r.Args[1], "BaseType") || r.Args[1] == "valueTypeSyntax") {
 				okFlags = true
 			}
+			// any local named in the argument that some row assigns from the base type
+			if len(r.Args) >= 2 && !okFlags {
+				for _, o := range rows {
+					if !strings.HasPrefix(o.Kind, "assign:") || !(strings.Contains(strings.Join(o.Args, " "), "BaseType") || strings.Contains(o.Tmpl, "BaseType")) {
+						continue
+					}
+					if v := strings.TrimPrefix(o.Kind, "assign:"); v != "" && regexp.MustCompile(`\b`+regexp.QuoteMeta(v)+`\b`).MatchString(r.Args[1]) {
+						okFlags, flagsViaLocal = true, true
+					}
+				}
+			}
 		}
 	}
 	// the flags argument, when it is a local, must be assigned from the base type under `BaseType != nil`
@@ -2548,7 +2560,7 @@ func ruleCppEnumUnderlyingType(c *core.Ctx) {
 				fromBase = true
 			}
 		}
-		okFlags = fromBase
+		okFlags = fromBase || flagsViaLocal
 	}
 	c.Check(okEnum, rule, "enum class/underlying type clause", posEnum, "`: TypeSyntax(BaseType)` is emitted when the enum declares a base type",
 		"the emitted `enum class` has no `: <base>` clause for an enum that declares a base type: C++ falls back to int, WriteEnum writes a zig-zag varint where the schema (and every other language) says e.g. uint8/uint64 — values are encoded differently and large unsigned values do not fit")
